@@ -22,8 +22,9 @@ func (e *Engine) prelude() string {
 	sb.WriteString("(declare-fun s_frombytes ((Array Int (_ BitVec 8)) Int Int) Str)\n")
 	sb.WriteString("(declare-fun seq ((Array Int (_ BitVec 8)) Int Int) Bytes)\n")
 	sb.WriteString("(declare-fun md5 (Bytes) (_ BitVec 128))\n(declare-fun crc32 (Bytes) (_ BitVec 32))\n(declare-fun b_len (Bytes) Int)\n")
+	sb.WriteString("(declare-fun otype (Int) Int)\n")
 	sb.WriteString("(declare-const strlit_empty Str)\n(assert (= (s_len strlit_empty) 0))\n")
-	sb.WriteString("(define-fun maxSliceCap () Int 281474976710656)\n(define-fun maxAlloc () Int 140737488355328)\n")
+	sb.WriteString("(define-fun maxSliceCap () Int 281474976710656)\n(define-fun maxAlloc () Int 281474976710656)\n")
 	sb.WriteString("(define-fun tdiv ((a Int) (b Int)) Int (ite (>= a 0) (ite (> b 0) (div a b) (- (div a (- b)))) (ite (> b 0) (- (div (- a) b)) (div (- a) (- b)))))\n")
 	sb.WriteString("(define-fun trem ((a Int) (b Int)) Int (- a (* b (tdiv a b))))\n")
 	// string literals
